@@ -5,7 +5,7 @@ W=/var/tmp/seedrun-$NAME-$ID
 git -C /repo worktree add -q --detach $W HEAD || exit 2
 git -C $W apply /verif/seeded/$NAME/patch.diff || { echo "$NAME: patch does not apply"; git -C /repo worktree remove --force $W; exit 2; }
 cd /verif
-GALLIA_REPO=$W ./check $ID --tier $TIER > /var/tmp/seedrun-$NAME-$ID.out 2>&1
+VERIF_EVIDENCE_DIR=/var/tmp/scratch-evidence GALLIA_REPO=$W ./check $ID --tier $TIER > /var/tmp/seedrun-$NAME-$ID.out 2>&1
 rc=$?
 echo "$NAME vs $ID: exit=$rc $(grep '^VIOLATION' /var/tmp/seedrun-$NAME-$ID.out | head -2 | tr '\n' ' ')"
 grep '^VIOLATION' /var/tmp/seedrun-$NAME-$ID.out | head -1 | sed 's/.*replay=\([^ ]*\).*/\1/' | xargs -r -I{} /venv/bin/python -c "import json;d=json.load(open('{}'));print('   ',d.get('key'),'|',str(d.get('what'))[:220])"
